@@ -117,7 +117,11 @@ def run_case(case):
                 try:
                     # piecewise-LINEAR maps: exactly on a knot the inverse may legitimately take either adjacent slope and
                     # which one it takes can flip with 1e-16 rounding differences -> keep inverse inputs off the knots
-                    xi_src = zoo.sample_inputs(me, B, seed + 1, structured=False) if "spline_linear" in me["tags"] else x
+                    # (the same holds at the tail junction of the linear, quadratic and cubic splines, whose derivative jumps
+                    # there - only the rational-quadratic spline is C1 at its tail bound: inside a composite the value handed to
+                    # such a part differs by 1e-16 between batch sizes and falls on either side of the junction)
+                    xi_src = zoo.sample_inputs(me, B, seed + 1, structured=False) if (
+                        "spline_linear" in me["tags"] or "kink" in me["tags"]) else x
                     y = copy.deepcopy(model0)(xi_src, ctx)[0]
                     yc = copy.deepcopy(model0)(companions, ctx)[0]
                     if me["dom_out"][0] == "box":
